@@ -1446,7 +1446,12 @@ def gen_copy_kw(rng, w, xi, corr):
             name = rng.choice(names)
             if name not in [a for a, _ in kw["attrs"]]:
                 val = gen_attr(rng, clsname, name)
-                if rng.random() < 0.45:
+                low_m = (name == "magnetization" and getattr(x, "_magnetization", None) is not None
+                         and float(np.linalg.norm(x._magnetization)) < 2000.0)
+                # (a magnetization below 2000 A/m makes the setter warn with repr(self), which creates the copy's style
+                #  lazily - same values, but a buffer the model does not predict; gen_attr avoids such values for the
+                #  same reason, so the original's own low/zero magnetization is not used as an alias either)
+                if rng.random() < 0.45 and not low_m:
                     # aliasing candidate: the very object the original's own attribute returns
                     val = {"alias": name}
                     npath = len(x._position)
